@@ -126,6 +126,31 @@ def run(tier):
             k = next(i for i, o in enumerate(outs) if o != outs[0])
             res.add_violation("cli-nondet:ruleguard-user-rules", "go-critic check %s %s: %d different outputs in %d runs" % (" ".join(a.split("=")[0] for a in rg_args), p, len(set(outs)), len(outs)),
                               {"argv": rg_args, "pkg": p, "run0": outs[0][1][-2000:], "runN": outs[k][1][-2000:]})
+    # the go/analysis front-end analyses a package and its test variant (which share the non-test files) in
+    # parallel goroutines: its -json report (diagnostics per analysed unit) must not vary either
+    for pk in ("wt1", "wt2", "wt3"):
+        d = os.path.join(ws, "withtests", pk)
+        os.makedirs(d, exist_ok=True)
+        body = "func %s(xs []int, s string) []int {\n\tif len(s) == 0 {\n\t\treturn xs[:]\n\t}\n\tx := 0\n\tx = x + 1\n\t_ = x\n\txs = append(xs, 1)\n\txs = append(xs, 2)\n\treturn xs\n}\n"
+        for fn, names in (("a.go", ["A1", "A2", "A3"]), ("b.go", ["B1", "B2"]), ("c.go", ["C1", "C2", "C3", "C4"])):
+            open(os.path.join(d, fn), "w").write("package %s\n\n" % pk + "\n".join(body % n for n in names))
+        open(os.path.join(d, "a_test.go"), "w").write("package %s\n\nimport \"testing\"\n\nfunc TestA(t *testing.T) { _ = A1(nil, \"\") }\n\n" % pk + body % "helperT")
+        open(os.path.join(d, "x_test.go"), "w").write("package %s_test\n\nimport \"testing\"\n\nfunc TestX(t *testing.T) {}\n\n" % pk + body % "helperX")
+    an = os.path.join(os.path.dirname(gc), "go-critic-analysis")
+
+    def anrun(_):
+        rc, so, se = vlib.sh([an, "-json", "-enable-all", "-disable=ruleguard", "./withtests/..."], cwd=ws, timeout=600)
+        return (rc, so)
+
+    outs = vlib.parallel(anrun, range(10), workers=2)
+    res.count("analyzer_json_runs", len(outs))
+    res.count("cli_runs", len(outs))
+    if not outs or '"posn"' not in outs[0][1]:
+        res.inconclusive.append({"kind": "inconclusive", "what": "analysis -json produced no diagnostics: " + (outs[0][1][-300:] if outs else "")})
+    elif len(set(outs)) > 1:
+        k = next(i for i, o in enumerate(outs) if o != outs[0])
+        res.add_violation("analyzer-nondet:json-report", "go-critic-analysis -json ./withtests/...: %d different reports in %d runs" % (len(set(outs)), len(outs)),
+                          {"run0": outs[0][1][-1500:], "runN": outs[k][1][-1500:]})
     pairs = res.counts.get("file_checker_pairs", 0)
     nt = res.counts.get("pairs_with_2plus_diagnostics", 0)
     cov = {
